@@ -104,10 +104,15 @@ let run_output (evs, outc) =
     (if sends = [] then "-" else String.concat "," sends)
     (if rounds = [] then "-" else String.concat ";" rounds)
 
+(* the snapshot: the aggregator model applied to the rounds the strategy model published *)
+let snap_hook : (round_rec list -> string) ref = ref (fun _ -> "-")
+
 
 let run_case (toks : string list) : string option =
   match toks with
   | "run" :: cfg :: t0 :: iters :: _ ->
     let ((evs, outc), _) = run (parse_cfg cfg) (zi t0) (parse_iters iters) in
-    Some (run_output (evs, outc))
+    let pubs = List.filter_map (function EPublish r -> Some r | _ -> None) evs in
+    let snap = (match outc with Faulted _ -> "-" | _ -> !snap_hook pubs) in
+    Some (run_output (evs, outc) ^ " snap=" ^ snap)
   | _ -> None
